@@ -1307,8 +1307,10 @@ def _value_of_origin_args(
     elif is_instance_of_typing_name(origin, "TypeAliasType"):
         args_vals = [_type_from_runtime(val, ctx) for val in args]
         alias_object = cast(Any, origin)
+        # The alias (its value and type parameters) depends only on the alias object;
+        # the subscripted form may be unhashable (Alias[[int]] for a ParamSpec).
         alias = ctx.get_type_alias(
-            val,
+            origin,
             lambda: type_from_runtime(alias_object.__value__, ctx=ctx),
             lambda: alias_object.__type_params__,
         )
